@@ -22,17 +22,27 @@ RULE = ("case = (generator type, construction path, jds, sizes, callbacks, motif
         "(some topology's stub count is not a multiple of its motif size; fast / network generator, all construction paths): "
         "every one with one topology under the same bounds, every 5th / 16th (quick; offset drawn from the seed) or 3rd / 4th "
         "(thorough) with two -- the short last group is handed to the callback, so WHICH stubs are left over must be uniform "
-        "as well; six of them in the corpus. Non-trivial = at least two distinct placements; distinct by (type, jds, sizes, indices)")
+        "as well; six of them in the corpus. LONG STUB LISTS, checker only (no model call, no enumeration): 3 (thorough 12) "
+        "runs of the fast / network generator on 70000-76000 stubs (motif size 2/3/4; every vertex one stub, or 30-60 hubs; "
+        "sometimes a second 12-stub topology before or after) with random.shuffle scripted per topology to [optional "
+        "reversal, left rotation by r] (r = a third of the list, half of a power-of-two block +-, 1, random), so that stubs "
+        "cross every block boundary; judged over Z by c03_check_big: the shuffle entry point got exactly the specification's "
+        "stub lists, once per topology, whole and in order, the script was used up, and the callback arguments are the "
+        "consecutive size_k-chunks of the permuted lists. Non-trivial = at least two distinct placements; distinct by (type, jds, sizes, indices)")
 EXHAUSTIVE = {"quick": True, "thorough": True}
 EXPLANATION = ("counting theorems (all stub lists, any length) in Props/C03.v; the histogram checker is proved to DECIDE "
                "'flat and complete' and to accept the model's histogram (also in the form c03_check computes it, from the "
                "callback calls of every run) for every valid input; per case the enumeration over the RNG outcomes is "
                "exhaustive; the family of handshake-consistent jds is exhaustive under the stated bounds, the non-divisible "
                "ones (fast / network only; C03_placement_fast_is_shuffle_any_length) exhaustive for one topology and a "
-               "fixed-stride sample for two")
+               "fixed-stride sample for two; stub lists of 70000+ entries are judged run by run by c03_check_big under scripted "
+               "structured permutations (C03_big_checker_sound / _placement: what it accepts is the model's plan under a "
+               "schedule of genuine permutations, its placement is the one whole-list shuffle per topology)")
 ASSUMPTIONS = ["CPython's random.shuffle is uniform over the n! permutations of its argument and successive calls are "
                "independent (trusted base, DESIGN section 6)"]
-TRUSTED = ["oracle-tree walker in harness/props/c03.py (replays a prefix of answers, branches on the first unscripted call)"]
+TRUSTED = ["oracle-tree walker in harness/props/c03.py (replays a prefix of answers, branches on the first unscripted call)",
+           "long runs: BigScript in harness/props/c03.py applies [reversal, rotation] in place and logs the list every "
+           "random.shuffle call was handed; the jds is rebuilt from the case's parameters (big_jds)"]
 TECHNIQUE = ("Coq counting proofs over the explicit sample space (all permutations per topology, product over "
              "topologies) + exact oracle-tree enumeration of the real generator judged by a verified histogram checker")
 LEVEL_TEXT = (
@@ -53,7 +63,14 @@ LEVEL_TEXT = (
     "list, no other randomness). The handshake condition is NOT needed for the fast / network generator: "
     "C03_placement_fast_is_shuffle_any_length / C03_fast_calls_pass_checker_any_length prove the same for every "
     "rectangular jds with positive sizes (the short last group is passed on as it is), so c03_check also judges "
-    "non-divisible sequences there (hypothesis validb_nohs); for the custom generator (which pops the short partition "
+    "non-divisible sequences there (hypothesis validb_nohs). Lists too long for the enumeration (and for unary naturals) "
+    "are covered by the checker over Z c03_check_big on single runs under scripted structured permutations: "
+    "C03_big_checker_sound proves that acceptance means one whole-list shuffle per topology on exactly the "
+    "specification's stub lists, scripted answers that are permutations (PisOk), and callback calls equal to the "
+    "model's plan_fast under that schedule; C03_big_checker_placement adds that the placement read off the calls is "
+    "shuffle_all of those answers, an arrangement of every stub list (this says nothing about the law of "
+    "random.shuffle itself on long lists, which stays trusted; it rules out a generator that does anything but one "
+    "whole-list shuffle per topology followed by consecutive grouping). For the custom generator (which pops the short partition "
     "first and drops a full one) divisibility stays a hypothesis.")
 LEVEL_NOTE = ("Trusted: uniformity and independence of CPython's random.shuffle; Coq kernel; extraction + driver + "
               "harness. The statement is about the law induced by a uniform shuffle, not about the Mersenne Twister.")
@@ -239,8 +256,118 @@ def family(N_max1, N_max2, maxsum, tags_vias, nondiv=None):
                            "names": G.names_for(tag, codes, list(sizes), mis), "mis": mis if tag == G.MOTIFS else []}
 
 
+# ------------------------------------------------------------------ LONG stub lists, checker only (lessons 13, 29)
+# The enumeration stops at a handful of stubs; a generator may treat LONG lists differently (C03-r6-2: lists of more
+# than 65536 stubs shuffled block-wise, stubs never leave their block).  The real fast / network generator is run on
+# 70000+ stubs with random.shuffle scripted to a structured permutation per topology -- optional reversal, then a left
+# rotation by r, so that elements cross every conceivable block boundary -- and the verified checker over Z
+# (GenBig.c03_check_big) judges: the shuffle entry point got exactly the specification's stub lists, once per topology,
+# whole and in order, the script was used up, and the callback calls are the consecutive chunks of the permuted lists.
+BIG_BLOCKS = [1 << 16, 1 << 15, 1 << 14, 10000, 4096]
+
+
+def big_case(rng, tag=None):
+    tag = tag if tag is not None else rng.choice([G.FAST, G.FAST, G.NETWORK])
+    layout = rng.choice(["deg1", "deg1", "hubs"])
+    size = rng.choice([2, 2, 3, 4])
+    n_motifs = rng.randint(70000 // size + 1, 76000 // size)
+    small = rng.choice([None, None, "before", "after"])      # a second, short topology (its own shuffle)
+    spec = {"layout": layout, "size": size, "n_motifs": n_motifs, "small": small, "seed": rng.randrange(1 << 30),
+            "hubs": rng.randint(30, 60)}
+    total = size * n_motifs
+    perms = []
+    for length in ([12] if small == "before" else []) + [total] + ([12] if small == "after" else []):
+        kind = rng.choice(["third", "block", "rev", "rev-rot", "one"])
+        if kind == "third":
+            sp = [0, length // 3 + rng.randint(0, 5)]
+        elif kind == "block":
+            sp = [rng.randint(0, 1), min(length - 1, rng.choice(BIG_BLOCKS) // 2 + rng.randint(0, 9))]
+        elif kind == "rev":
+            sp = [1, 0]
+        elif kind == "rev-rot":
+            sp = [1, rng.randrange(length)]
+        else:
+            sp = [0, 1]
+        perms.append(sp)
+    sizes = ([3] if small == "before" else []) + [size] + ([2] if small == "after" else [])
+    return {"tag": tag, "via": rng.choice(G.VIAS), "jds": [], "sizes": sizes, "codes": [G.CLIQUE if x <= 3 else G.CYCLE for x in sizes],
+            "names": [[10 + k] for k in range(len(sizes))], "mis": [], "big": spec, "specs": perms}
+
+
+def big_jds(case):
+    """the jds of a long run (list of tuples, columns in topology order), rebuilt from the case's parameters"""
+    import random as _r
+    spec = case["big"]
+    r = _r.Random(spec["seed"])
+    total = spec["size"] * spec["n_motifs"]
+    if spec["layout"] == "deg1":
+        col = [1] * total + [0] * r.randint(0, 50)           # some vertices of degree zero
+        r.shuffle(col)
+    else:
+        col = [0] * spec["hubs"]
+        for _ in range(total):
+            col[r.randrange(len(col))] += 1
+    N = len(col)
+    small = [0] * N
+    for _ in range(12):
+        small[r.randrange(N)] += 1
+    if spec["small"] == "before":
+        return [(a, b) for a, b in zip(small, col)]
+    if spec["small"] == "after":
+        return [(b, a) for a, b in zip(small, col)]
+    return [(b,) for b in col]
+
+
+class BigScript:
+    """random.shuffle scripted to [reverse?, rotate-left r] per call; every call is logged with the list it was handed;
+    calls beyond the script are answered by the identity (and logged); every other entry point is a protocol error"""
+
+    def __init__(self, specs):
+        self.answers = [("shuffle", sp) for sp in specs]
+        self.pos = 0
+        self.log = []
+
+    def shuffle(self, x):
+        self.log.append([v if type(v) is int else -1 for v in x])
+        if self.pos < len(self.answers):
+            rev, r = self.answers[self.pos][1]
+            self.pos += 1
+            if rev:
+                x.reverse()
+            if r:
+                x[:] = x[r:] + x[:r]
+
+    def _no(self, *a, **k):
+        raise oracles.OracleProtocol("only random.shuffle is scripted in a long run")
+    choice = randrange = random = choices = _no
+
+
+def run_big(case):
+    jds = big_jds(case)
+    log = []
+
+    def wrap(j, code):
+        fn = G.py_builder(code)
+
+        def cb(vs):
+            log.append([j, [v if type(v) is int else -1 for v in vs]])
+            return fn(vs)
+        return cb
+    builders = [wrap(j, c) for j, c in enumerate(case["codes"])]
+    names = [G.name_str(n[0]) for n in case["names"]]
+    script = BigScript(case["specs"])
+    with G.strict_scripted(script):
+        alg = G.construct(case, builders, names)
+        out = alg.random_clustered_graph(jds)
+    return {"big": True, "shuffles": script.log[:8], "n_shuffles": len(script.log), "left": len(script.answers) - script.pos,
+            "calls": log[:G.HUGE_LIMIT], "n_calls": len(log), "hist": [[], []], "returned": type(out).__name__}
+
+
 def generate(rng, tier):
     tv = [(G.FAST, "direct"), (G.MOTIFS, "direct"), (G.NETWORK, "main"), (G.MOTIFS, "factory"), (G.FAST, "main")]
+    # long stub lists first (checker only; three runs in quick, twelve in thorough; one to two seconds each)
+    for i in range(3 if tier == "quick" else 12):
+        yield big_case(rng, [G.FAST, G.NETWORK, G.FAST, G.FAST][i % 4])
     if tier == "quick":
         yield from family(4, 2, 4, tv, nondiv=(5, rng.randrange(5)))
         yield from family(0, 3, 3, tv, nondiv=(16, rng.randrange(16)))
@@ -250,6 +377,8 @@ def generate(rng, tier):
 
 
 def impl(case):
+    if "big" in case:
+        return run_big(case)
     try:
         leaves = walk(case)
     except TreeTooBig:
@@ -280,11 +409,15 @@ def impl(case):
 
 
 def model_calls(case, impl_obs):
+    if "big" in case:
+        return []            # checker only: the unary-nat model cannot hold 70000 stubs
     return [("c03_run", G.model_tree(case, with_pis=False)),
             ("c01_run", G.model_tree(dict(case, pis=[list(range(s)) for s in G.col_sums(case["jds"])])))]
 
 
 def model_obs(case, raws):
+    if "big" in case:
+        return {}
     outs, one = raws
     if isinstance(outs, str):
         return ["!model", outs]
@@ -306,6 +439,14 @@ def model_obs(case, raws):
 
 
 def compare(case, impl_obs, model):
+    if "big" in case:
+        if G.is_exc(impl_obs):
+            return "implementation raised %s on a long valid input" % impl_obs[1]
+        want = len(case["specs"])
+        if impl_obs["n_shuffles"] != want or impl_obs["left"]:
+            return "oracle protocol: %d shuffle calls (%d scripted answers left), expected one per topology = %d" % (
+                impl_obs["n_shuffles"], impl_obs["left"], want)
+        return None
     if isinstance(model, list):
         if G.is_exc(impl_obs) and G.is_exc(model) and impl_obs[1] == model[1]:
             return None
@@ -325,6 +466,11 @@ def compare(case, impl_obs, model):
 
 
 def check_calls(case, impl_obs):
+    if "big" in case:
+        if not isinstance(impl_obs, dict):
+            return []
+        return [("c03_check_big", [[list(r) for r in big_jds(case)], case["sizes"], case["specs"], impl_obs["shuffles"],
+                                   impl_obs["left"], impl_obs["calls"]])]
     if not isinstance(impl_obs, dict):
         return [("c01_check", G.c01_check_tree(case, ["!exc", "x"]))]
     return [("c03_check", G.clamp([case["tag"], case["jds"], case["sizes"], case.get("mis", []),
@@ -333,6 +479,21 @@ def check_calls(case, impl_obs):
 
 def check_verdict(case, impl_obs, raws):
     v = raws[0] if raws else None
+    if "big" in case:
+        if G.is_exc(impl_obs):
+            if impl_obs[1] == "Forbidden":
+                return ("the generator re-seeds the RNG or draws from a private / numpy generator on a long stub list: its "
+                        "placements are not a function of the uniform random.shuffle outcomes")
+            if impl_obs[1] in ("OracleProtocol", "Timeout"):
+                return None
+            return "implementation raised %s on a long valid input" % impl_obs[1]
+        if v == 1:
+            return None
+        return ("c03_check_big rejected a run on %d stubs: the shuffle entry point was called %d times on lists of lengths %r "
+                "(specification: once per topology on the whole stub list, %d topologies), %d build-callback calls -- the "
+                "groups are not the consecutive chunks of ONE uniformly shuffled stub list per topology" % (
+                    case["big"]["size"] * case["big"]["n_motifs"], impl_obs["n_shuffles"],
+                    [len(x) for x in impl_obs["shuffles"]], len(case["specs"]), impl_obs["n_calls"]))
     if v == 2 or not G.config_total(case):
         return None
     if G.is_exc(impl_obs):
@@ -349,16 +510,28 @@ def check_verdict(case, impl_obs, raws):
 
 
 def nontrivial_key(case, impl_obs):
+    if "big" in case:
+        return [case["tag"], case["big"], case["specs"]] if isinstance(impl_obs, dict) else None
     if isinstance(impl_obs, dict) and len(impl_obs["hist"]) >= 2:
         return [case["tag"], case["jds"], case["sizes"], case.get("mis")]
     return None
 
 
 def shrink(case):
+    if "big" in case:
+        return iter(())      # a handful of parameters; below the block length the run says nothing new
     return G.shrink_case(case)
 
 
 def describe(case, impl_obs):
+    if "big" in case:
+        d = {"generator": G.TAGNAME[case["tag"]], "via": case.get("via"), "long_run": case["big"], "sizes": case["sizes"],
+             "scripted_shuffles_[reverse,rotate]": case["specs"]}
+        if isinstance(impl_obs, dict):
+            d["shuffle_calls"] = impl_obs["n_shuffles"]
+            d["callback_calls"] = impl_obs["n_calls"]
+            d["calls_head"] = impl_obs["calls"][:3]
+        return d
     d = G.describe_case(case, impl_obs if not isinstance(impl_obs, dict) else ["histogram"])
     if isinstance(impl_obs, dict):
         d["rng_outcomes_enumerated"] = impl_obs["leaves"]
